@@ -63,6 +63,7 @@ def build_items(ctx, tuples):
 
 def run(ctx):
     rng = ctx.rng
+    X.bv_selftest(ctx, 4 if ctx.quick else 5)
     tuples = []
     maxw = 4 if ctx.quick else 5
     # exhaustive part: every operand value for every width up to maxw
